@@ -1363,7 +1363,7 @@ impl TypeChecker {
                 }
                 for (a_param, b_param) in a.arguments.iter().zip(&b.arguments)
                 {
-                    self.unify_inner(a_param, b_param)?;
+                    self.unify_argument(a_param, b_param)?;
                 }
                 Name(b)
             }
@@ -1374,9 +1374,9 @@ impl TypeChecker {
                 ref b @ Function(ref b_params, ref b_ret),
             ) => {
                 for (a_param, b_param) in a_params.iter().zip(b_params) {
-                    self.unify_inner(a_param, b_param)?;
+                    self.unify_argument(a_param, b_param)?;
                 }
-                self.unify_inner(&a_ret, b_ret)?;
+                self.unify_argument(&a_ret, b_ret)?;
                 b.clone()
             }
             // Anything else cannot be unified.
@@ -1384,6 +1384,25 @@ impl TypeChecker {
                 return None;
             }
         })
+    }
+
+    /// Unify two types that appear as arguments of the same type
+    ///
+    /// Arguments have to be equal: `Option[!]` and `Option[i32]` are
+    /// different types. So, unlike at the top level, the never type only
+    /// unifies with itself or with a type that is still unknown.
+    fn unify_argument(&mut self, a: &Type, b: &Type) -> Option<Type> {
+        let resolved_a = self.resolve_type(a);
+        let resolved_b = self.resolve_type(b);
+        match (resolved_a, resolved_b) {
+            (Type::Never, Type::Never) => Some(Type::Never),
+            (Type::Never, Type::Var(var)) | (Type::Var(var), Type::Never) => {
+                self.type_info.unionfind.set(var, Type::Never);
+                Some(Type::Never)
+            }
+            (Type::Never, _) | (_, Type::Never) => None,
+            _ => self.unify_inner(a, b),
+        }
     }
 
     /// Check whether the type variable `var` occurs in the type `ty`
